@@ -8,5 +8,7 @@ CONSTANTS
   PreFix = FALSE
   CoarseCancel = FALSE
   Modes = {"nowait", "wait"}
+  Modes2 = {"none"}
+  NeverExits = {}
   MaxPreempt = 1000
 INVARIANTS Emit
